@@ -4,7 +4,10 @@ From Geff Require Export Base Dtype Vlen Tree Validate Write Read.
 Open Scope list_scope.
 
 Record call := mkcall { c_g : wgraph; c_md : smeta; c_validate : bool; c_ov : bool }.
-Inductive input := IHist (k : skind) (pre : option znode) (calls : list call).
+(* IApiHist: the same history through geff.write (graph-library writers): the wrapper's guard in front of write_arrays' guard;
+   each call carries the arrays and metadata the backend handed to write_arrays (captured by the harness) *)
+Inductive input := IHist (k : skind) (pre : option znode) (calls : list call)
+                 | IApiHist (k : skind) (pre : option znode) (calls : list call).
 Inductive obs := OHist (steps : list (res unit * option znode)).
 
 Fixpoint play (k : skind) (st : option znode) (cs : list call) : list (res unit * option znode) :=
@@ -13,7 +16,14 @@ Fixpoint play (k : skind) (st : option znode) (cs : list call) : list (res unit 
   | c :: r => let (st', x) := run (write_arrays k (c_g c) (c_md c) (c_validate c) (c_ov c)) st in
               (x, st') :: play k st' r
   end.
-Definition model (i : input) : obs := match i with IHist k pre cs => OHist (play k pre cs) end.
+Fixpoint play_api (k : skind) (st : option znode) (cs : list call) : list (res unit * option znode) :=
+  match cs with
+  | [] => []
+  | c :: r => let (st', x) := run (api_write k (c_g c) (c_md c) (c_validate c) (c_ov c)) st in
+              (x, st') :: play_api k st' r
+  end.
+Definition model (i : input) : obs :=
+  match i with IHist k pre cs => OHist (play k pre cs) | IApiHist k pre cs => OHist (play_api k pre cs) end.
 Definition unit_eqb (a b : unit) : bool := true.
 Definition step_eqb (a b : res unit * option znode) : bool :=
   res_eqb unit_eqb (fst a) (fst b) && otree_eqb (snd a) (snd b).
